@@ -19,9 +19,9 @@ Proof.
   assert (T0 : tinv c (add_event st (EReq e p))) by (apply (tinv_apply_event c st (EReq e p)); exact T).
   assert (TX : tinv c (wres_state (run_extractor c e p ff (add_event st (EReq e p))))).
   { rewrite run_extractor_state. apply tinv_apply_events. exact T0. }
-  destruct (c_required c e p); [|apply IH; exact T0].
+  destruct (req c e p size ff); [|apply IH; exact T0].
   destruct ((0 <? c_max_size c)%Z && negb checked).
-  - destruct (ff_stat ff); [exact T0|]. destruct (c_max_size c <? size)%Z; [exact T0|].
+  - destruct (ff_stat ff); [destruct (c_fatal c); exact T0|]. destruct (c_max_size c <? size)%Z; [exact T0|].
     destruct (run_extractor c e p ff (add_event st (EReq e p))) as [st1 sg|st1 pc]; cbn [wres_state] in *; [apply IH|]; exact TX.
   - destruct (run_extractor c e p ff (add_event st (EReq e p))) as [st1 sg|st1 pc]; cbn [wres_state] in *; [apply IH|]; exact TX.
 Qed.
@@ -111,7 +111,7 @@ Lemma schedule_quiet_ff c : forall nd, fault_free nd = true -> forall ms p,
 Proof.
   induction nd as [n k sz d ff|n ch df IH] using node_ind2; intros FF ms p.
   - cbn [schedule forallb call_quiet]. cbn [fault_free] in FF. unfold ff_clean in FF.
-    apply andb_true_iff in FF as [_ FS]. apply negb_true_iff in FS. rewrite FS, andb_false_r. reflexivity.
+    apply andb_true_iff in FF as [_ FS]. apply negb_true_iff in FS. rewrite FS, !andb_false_r. reflexivity.
   - rewrite schedule_dir. cbn [forallb call_quiet].
     rewrite fault_free_dir in FF. apply andb_true_iff in FF as [FD FC].
     unfold df_clean in FD. apply andb_true_iff in FD as [FD _]. apply andb_true_iff in FD as [FO FR].
@@ -160,19 +160,14 @@ Proof.
   rewrite N.eqb_refl. cbn [andb]. rewrite fault_free_stat by exact FF. reflexivity.
 Qed.
 
-Lemma dom_C01_split c t : dom_C01 c t = true ->
-  is_none (c_re c) || is_none (c_glob c) = true /\ (c_gitignore c = true -> gi_of t [] = None).
-Proof.
-  unfold dom_C01. intros H. apply andb_true_iff in H as [H1 H2]. split; [exact H1|].
-  intros G. rewrite G in H2. cbn [negb orb] in H2. destruct (gi_of t []); [discriminate H2|reflexivity].
-Qed.
+
 
 Lemma ext_events_observable c p sz ff : ff_open ff = false -> ff_fstat ff = false -> forall es checked,
   forallb observable (ext_events c p sz ff es checked) = true.
 Proof.
   intros FO FS. induction es as [|e es IHe]; intros checked; [reflexivity|].
-  cbn [ext_events forallb observable]. destruct (c_required c e p); [|apply IHe].
-  destruct ((0 <? c_max_size c)%Z && negb checked && (c_max_size c <? sz)%Z); [reflexivity|].
+  cbn [ext_events forallb observable]. destruct (req c e p sz ff); [|apply IHe].
+  destruct ((0 <? c_max_size c)%Z && negb checked && (ff_stat ff || (c_max_size c <? sz)%Z)); [reflexivity|].
   rewrite FO, FS. cbn [app forallb observable]. apply IHe.
 Qed.
 
@@ -216,13 +211,13 @@ Qed.
 
 Theorem whole_tree_calls c t :
   wf_tree t = true -> fault_free t = true -> no_limits c = true -> no_xpanic c -> c_paths c = [] ->
-  dom_C01 c t = true -> fs_calls c t = expected_calls c t.
+  fs_calls c t = expected_calls c t.
 Proof.
-  intros WF FF NL NP P D. apply dom_C01_split in D as [Hre Hroot].
+  intros WF FF NL NP P.
   destruct (whole_tree_run c t FF NL NP P) as (st & R & _ & _ & EV & _).
   unfold fs_calls. rewrite R. cbn [wres_state]. rewrite EV.
   change (calls (flat_map (call_events c) (schedule c [] [DOT] t))) with (sched_calls c [] (mpath []) t).
-  rewrite (sched_calls_spec c t Hre Hroot t [] []); [apply expected_from_root|reflexivity|intros []|exact WF|exact FF|apply stack_rep_nil].
+  rewrite (sched_calls_spec c t t [] []); [apply expected_from_root|reflexivity|intros []|exact WF|exact FF|apply stack_rep_nil].
 Qed.
 
 (* ------------------------------------------------------------------ no call is made twice *)
@@ -348,7 +343,7 @@ Lemma run_single c t :
               | [] => ROk [] [] init_state
               | _ => match fs_result c t with
                      | WPanic st pc => RPanic st pc
-                     | WOk st (Abort a) => RErr [] a st
+                     | WOk st (Abort a) => RErr (s_inv st) a st
                      | WOk st _ => ROk (s_inv st) (statuses c st) st
                      end
               end.
@@ -372,37 +367,16 @@ Proof. intros E. unfold expected_calls. rewrite E. apply flat_map_nil_in. reflex
 
 Theorem whole_tree_results c t :
   wf_tree t = true -> fault_free t = true -> no_limits c = true -> no_xpanic c -> c_paths c = [] ->
-  dom_C01 c t = true ->
   exists st, run c [t] = ROk (inventory_of_calls c (expected_calls c t))
                              (map (fun e => (e, expected_status c (expected_calls c t) e)) (c_exts c)) st.
 Proof.
-  intros WF FF NL NP P D. rewrite run_single.
+  intros WF FF NL NP P. rewrite run_single.
   destruct (c_exts c) as [|e0 es] eqn:EX.
   - rewrite expected_calls_no_exts by exact EX. exists init_state. reflexivity.
-  - pose proof (whole_tree_calls c t WF FF NL NP P D) as C.
+  - pose proof (whole_tree_calls c t WF FF NL NP P) as C.
     destruct (whole_tree_run c t FF NL NP P) as (st & R & _ & T & _ & O).
     unfold fs_calls in C. rewrite R in *. cbn [wres_state] in C. exists st. f_equal.
     + destruct T as (I1 & _). rewrite I1, inv_of_events_calls, C. reflexivity.
     + unfold statuses. rewrite EX. apply map_ext. intros e. rewrite (status_of_trace c st e T O), C. reflexivity.
 Qed.
 
-(* ------------------------------------------------------------------ refutation witnesses (C01) *)
-
-Lemma nodup_single {A} (x : A) : NoDup [x].
-Proof. constructor; [intros []|constructor]. Qed.
-
-Lemma regex_and_glob_refuted_lemma :
-  exists c t, wf_tree t = true /\ fault_free t = true /\ no_limits c = true /\ NoDup (c_exts c) /\
-              fs_calls c t <> expected_calls c t.
-Proof.
-  exists c_re_glob, t_two_dirs. repeat split; try reflexivity; [apply nodup_single|].
-  vm_compute. discriminate.
-Qed.
-
-Lemma root_gitignore_refuted_lemma :
-  exists c t, wf_tree t = true /\ fault_free t = true /\ no_limits c = true /\ NoDup (c_exts c) /\
-              fs_calls c t <> expected_calls c t.
-Proof.
-  exists c_gi, t_root_gi. repeat split; try reflexivity; [apply nodup_single|].
-  vm_compute. discriminate.
-Qed.
